@@ -93,7 +93,8 @@ def acctRefs (val : Bytes) : Option (List Ref) :=
     if xs.length < 9 then none else
     let api := strOf xs[6]?
     let st := strOf xs[3]?
-    let og := match xs[10]? with
+    let g : Option Rlp.Item := xs[10]?
+    let og := match g with
       | some (.list [_, .bytes h]) => if beNat (strOf xs[9]?) % 2 = 1 ∧ !h.isEmpty then [(bBlob, h)] else []
       | _ => []
     some ((if beNat (strOf xs[0]?) ≥ 2 ∧ !api.isEmpty then [(bBlob, api)] else [])
